@@ -27,12 +27,14 @@ const LEAVES: &[(&str, &str, &str, &str)] = &[
     ("list.0.sub.0.v", r#"["list",0,"sub",0,"v"]"#, r#""s0""#, r#""s1""#),
     ("l2.0", r#"["l2",0]"#, r#""e0""#, r#""e1""#),
     ("l2.1", r#"["l2",1]"#, r#""g0""#, "5"),
+    ("om", r#"["om"]"#, r#"{"p":{"k":1,"v":"m0"},"q":{"k":2,"v":"m1"}}"#, r#"{"q":{"k":2,"v":"m1"},"r":{"k":1,"v":"m0"}}"#),
+    ("list", r#"["list"]"#, r#"[{"k":1,"v":"v0","w":"u0","sub":[{"k":11,"v":"s0"}]},{"k":2,"v":"w0","w":"u1","sub":[{"k":21,"v":"t0"}]}]"#, r#"[{"k":2,"v":"w0","w":"u1","sub":[{"k":21,"v":"t0"}]},{"k":3,"v":"n0","w":"u2","sub":[]},{"k":1,"v":"v0","w":"u0","sub":[{"k":11,"v":"s0"}]}]"#),
     ("ll.0.0", r#"["ll",0,0]"#, r#""h0""#, r#""h9""#),
     ("ll.0.1", r#"["ll",0,1]"#, r#""h1""#, "8"),
     ("ll.1.0", r#"["ll",1,0]"#, r#""h2""#, r#""h7""#),
 ];
 
-const D0: &str = r#"{"a":"a0","b":"b0","c":1,"d":3,"flag":true,"n":0,"s":"x","obj":{"x":"x0","k":"k0","y":{"z":"z0"}},"o2":{"p":"p0","q":"q0"},"list":[{"k":1,"v":"v0","w":"u0","sub":[{"k":11,"v":"s0"}]},{"k":2,"v":"w0","w":"u1","sub":[{"k":21,"v":"t0"}]}],"l2":["e0","g0"],"ll":[["h0","h1"],["h2"]]}"#;
+const D0: &str = r#"{"a":"a0","b":"b0","c":1,"d":3,"flag":true,"n":0,"s":"x","obj":{"x":"x0","k":"k0","y":{"z":"z0"}},"o2":{"p":"p0","q":"q0"},"list":[{"k":1,"v":"v0","w":"u0","sub":[{"k":11,"v":"s0"}]},{"k":2,"v":"w0","w":"u1","sub":[{"k":21,"v":"t0"}]}],"l2":["e0","g0"],"ll":[["h0","h1"],["h2"]],"om":{"p":{"k":1,"v":"m0"},"q":{"k":2,"v":"m1"}}}"#;
 
 /// (expression source, dependency leaves, kind: 's' scalar-valued / 'l' list-valued / 'o' object-valued)
 const EXPRS: &[(&str, &[&str], char)] = &[
@@ -93,6 +95,10 @@ const EXPRS: &[(&str, &[&str], char)] = &[
     ("m.rev([a, b, ...l2])", &["a", "b", "l2.0"], 'l'),
     ("m.wrap(a, l2).q", &["a", "l2.0", "l2.1"], 'l'),
     ("ll[n]", &["ll.0.0", "ll.0.1", "ll.1.0", "n"], 'l'),
+    ("om", &["om"], 'l'),
+    ("list", &["list"], 'l'),
+    ("m.rev(list)", &["list"], 'l'),
+    ("flag ? om : obj", &["om", "flag"], 'l'),
     ("m.wrap(a, obj)", &["a", "obj.x", "obj.y.z"], 'w'),
     ("m.wrap(m.f(a), obj)", &["a", "obj.x", "obj.k"], 'w'),
     ("flag ? m.wrap(a, obj) : m.wrap(b, obj.y)", &["flag", "a", "obj.x", "obj.y.z"], 'w'),
@@ -144,6 +150,8 @@ const POSITIONS: &[(&str, &str, char, char, bool)] = &[
     ("event-handler", "<view bind:tap=\"{{ @E@ }}\"/>", 's', '-', false),
     ("for-list", "<block wx:for=\"{{ @E@ }}\">[{{ index }}:{{ item }}]</block>", 'l', '-', true),
     ("for-list-key-this", "<view wx:for=\"{{ @E@ }}\" wx:key=\"*this\">{{ item }}</view>", 'l', '-', true),
+    ("for-list-index-only", "<view wx:for=\"{{ @E@ }}\" data-i=\"{{ index }}\"><text>{{ index }}</text></view>", 'l', '-', true),
+    ("for-list-keyed-k", "<view wx:for=\"{{ @E@ }}\" wx:key=\"k\" data-i=\"{{ index }}\">{{ item.v }}</view>", 'l', '-', true),
     ("for-list-in-if", "<block wx:if=\"{{ c }}\"><view wx:for=\"{{ @E@ }}\">{{ item }}/{{ c }}</view></block>", 'l', '-', true),
     ("for-of-for", "<block wx:for=\"{{ ll }}\" wx:for-item=\"row\" wx:for-index=\"ri\"><view wx:for=\"{{ row }}\">{{ ri }}/{{ index }}:{{ item }}:{{ @E@ }}</view></block>", 's', '-', true),
     ("tmpl-data-wrap", "<template name=\"t\"><text>{{ o.q.x }}:{{ o.q.y.z }}:{{ o.q.k }}:{{ o.q.z }}:{{ o.p }}</text></template><template is=\"t\" data=\"{{ o: @E@ }}\"/>", 'w', '-', true),
@@ -395,6 +403,8 @@ const MODEL_POSITIONS: &[(&str, &str, char, Option<bool>)] = &[
     ("for-unkeyed", "<view wx:for=\"{{ list }}\"><input @B@/></view>", 'i', Some(true)),
     ("for-renamed", "<view wx:for=\"{{ list }}\" wx:for-item=\"item\" wx:for-index=\"index\" wx:key=\"k\"><block wx:if=\"{{ c }}\"><input @B@/></block></view>", 'i', Some(true)),
     ("for-in-for", "<block wx:for=\"{{ l2 }}\" wx:for-item=\"o\" wx:for-index=\"oi\"><block wx:for=\"{{ list }}\" wx:key=\"k\"><input @B@/></block></block>", 'i', Some(true)),
+    ("for-keyed-outer-inner-sub", "<block wx:for=\"{{ list }}\" wx:key=\"k\" wx:for-item=\"o\" wx:for-index=\"oi\"><block wx:for=\"{{ o.sub }}\" wx:key=\"k\"><input @B@/></block></block>", 'i', Some(true)),
+    ("for-unkeyed-outer-inner-sub", "<block wx:for=\"{{ list }}\" wx:for-item=\"o\"><view wx:for=\"{{ o.sub }}\"><input @B@/></view></block>", 'i', Some(true)),
     ("for-cond-list", "<block wx:for=\"{{ flag ? list : [] }}\" wx:key=\"k\"><input @B@/></block>", 'i', Some(true)),
     ("for-cond-member-list", "<block wx:for=\"{{ (flag ? list[0] : list[1]).sub }}\" wx:key=\"k\"><input @B@/></block>", 'i', Some(true)),
     ("for-nested-cond-member-list", "<block wx:for=\"{{ (flag ? (a ? list[0] : list[1]) : list[1]).sub }}\"><input @B@/></block>", 'i', Some(true)),
@@ -467,6 +477,10 @@ fn build11(seed: u64, i: u64, p: &(&str, &str, char, Option<bool>), e: &(&str, &
     let mut state = vec![false; leaves.len()];
     let mut schedule: Vec<Value> = vec![];
     let mut u = 900;
+    // lists the world reads by position outside a loop over them need every shifted position
+    // re-marked (splice_safe); otherwise the runtime's own splice marks are what is wanted
+    let indexed = e.0.contains("list[") || e.0.contains("l2[") || e.0.contains("ll[") || p.1.contains("list[") || p.1.contains("l2[");
+    let splice = if indexed { "splice_safe" } else { "splice" };
     for round in 0..8 {
         // toggle a seeded subset of the leaves, then write through listeners
         let mut any = false;
@@ -481,10 +495,10 @@ fn build11(seed: u64, i: u64, p: &(&str, &str, char, Option<bool>), e: &(&str, &
         if round % 3 == 2 {
             // structure moves under the listeners
             match r.below(4) {
-                0 => schedule.push(json!(["splice_safe", ["list"], 0, 0, [{"k": 50 + round, "v": format!("n{}", round), "w": "x", "sub": []}]])),
+                0 => schedule.push(json!([splice, ["list"], 0, 0, [{"k": 50 + round, "v": format!("n{}", round), "w": "x", "sub": []}]])),
                 1 => schedule.push(json!(["reorder", ["list"], "reverse"])),
-                2 => schedule.push(json!(["splice_safe", ["l2"], 0, 0, [format!("z{}", round)]])),
-                _ if p.0.starts_with("for-list-of-lists") => schedule.push(json!(["splice_safe", ["ll"], 0, 0, [[format!("y{}", round)]]])),
+                2 => schedule.push(json!([splice, ["l2"], 0, 0, [format!("z{}", round)]])),
+                _ if p.0.starts_with("for-list-of-lists") => schedule.push(json!([splice, ["ll"], 0, 0, [[format!("y{}", round)]]])),
                 _ => schedule.push(json!(["reorder", ["l2"], "rotate"])),
             }
             any = true;
@@ -516,7 +530,7 @@ fn build11(seed: u64, i: u64, p: &(&str, &str, char, Option<bool>), e: &(&str, &
         "schedule": schedule,
         "scripts": [],
         "sources": sources,
-        "indexed_lists": [["list"], ["l2"]],
+        "indexed_lists": if indexed { json!([["list"], ["l2"], ["ll"]]) } else { json!([]) },
         "script_values": {"index#m:k": 7},
         "unreachable_fields": [],
         "root_path": "index",
